@@ -4289,8 +4289,10 @@ async fn cancel_scn(p: &[&str]) -> String {
     seen.push(id);
   }
   let accepted: Vec<usize> = fate.iter().filter(|(_, f)| *f == Fate::Accepted).map(|(i, _)| *i).collect();
+  // a PUB may drop whole messages at its high-water mark: for it "accepted" does not promise arrival
+  let lossy = sty == "PUB";
   for i in &accepted {
-    if !seen.contains(i) {
+    if !lossy && !seen.contains(i) {
       problems.push(format!("key=cancel-lost message {} was accepted by send() and never arrived", i));
     }
   }
@@ -4303,6 +4305,7 @@ async fn cancel_scn(p: &[&str]) -> String {
   // the polls of a receive come from another task and are only ordered among themselves)
   let order: Vec<usize> = seen.iter().copied().filter(|i| accepted.contains(i) && *i < 190).collect();
   let want: Vec<usize> = accepted.iter().copied().filter(|i| *i < 190).collect();
+  let want: Vec<usize> = if lossy { want.into_iter().filter(|i| order.contains(i)).collect() } else { want };
   if order != want && problems.is_empty() {
     problems.push(format!("key=cancel-order accepted {:?}, arrived {:?}", want, order));
   }
